@@ -52,7 +52,9 @@ Section PDFFIT.
         pars <- mapM float_of (slice (split_commas line) 1 7) ;;
         _ <- lattice_of pars ;;
         Ok ({| p_cell := Some pars; p_ncell := p_ncell st |}, false)
-      else if kw w0 "dcell" then _ <- mapM float_of (slice (split_commas line) 1 7) ;; Ok (st, false)
+      else if kw w0 "dcell" then
+        ds <- mapM float_of (slice (split_commas line) 1 7) ;;
+        if negb (Nat.eqb (List.length ds) 6) then Raise FormatError else Ok (st, false)
       else if kw w0 "ncell" then
         ns <- mapM int_of (slice (split_commas line) 1 5) ;;
         Ok ({| p_cell := p_cell st; p_ncell := ns |}, false)
